@@ -183,6 +183,7 @@ def _run_shard(args):
                     with _HANGS.get_lock():
                         _HANGS.value += nh
                 if any("skipped" in o for o in obs):
+                    res["buckets"]["case-not-judged-" + ("environment" if any(str(o.get("skipped", "")).startswith("environment") for o in obs) else "run-stopping-or-batch-abandoned")] += 1
                     continue
                 v = judge_case(mod, case, obs)
                 res["evaluations"] += 1
